@@ -146,7 +146,7 @@ def c04(ctx):
 from . import e2e
 import glob
 
-COL = {name: i for i, name in enumerate(['agree', 'C01', 'C03', 'C04', 'C05', 'C11', 'C12', 'C13', 'C01struct', 'C03values'])}
+COL = {name: i for i, name in enumerate(['agree', 'C01', 'C03', 'C04', 'C05', 'C11', 'C12', 'C13', 'C01struct', 'C03values', 'C06'])}
 
 
 def load_corpus(pid):
